@@ -642,6 +642,9 @@ func (v Value) opNeq(b Value) Value { return Bool(!v.Equals(b)) }
 
 func (v Value) Equals(b Value) bool {
 	v, b = v.adopt(b.t), b.adopt(v.t)
+	if v.t == TypeNil && b.t != TypeNil {
+		v, b = b, v // nil == x is x == nil
+	}
 	if (v.t == TypeNil) != (b.t == TypeNil) {
 		// a number, bool or string held by an any-typed operand is never nil
 		o := v
